@@ -12,7 +12,7 @@ for d in seeded/*${1:-}*/; do
   if echo "$out" | grep -q "patch does not apply\|uncommitted"; then echo "$n: PATCH PROBLEM: $(echo "$out" | grep -m1 'apply\|uncommitted')"; FAIL=1; continue; fi
   res=""
   for id in $ids; do
-    if echo "$out" | awk -v id="$id" '$0 ~ "^=== "id" "{f=1;next} /^=== /{f=0} f' | grep -q "VIOLATION property=$id"; then res="$res $id:caught"; else res="$res $id:MISSED"; FAIL=1; fi
+    if echo "$out" | awk -v id="$id" '$0 ~ "^=== "id" "{f=1;next} /^=== /{f=0} f' | grep -q "VIOLATION property=${id%L}"; then res="$res $id:caught"; else res="$res $id:MISSED"; FAIL=1; fi
   done
   echo "$n:$res"
 done
